@@ -249,3 +249,6 @@ def run(chk, S: Session):
 
     rb = chk.rule("R-C07-B", "clause of this statement decided by a rule of C06 (the dt that scales the error estimate is the dt of the attempted, clipped step)", floor=1)
     borrow(chk, S, rb, "C06", lambda r, c: r == "R-C06-4")
+    rb2 = chk.rule("R-C07-B2", "the acceptance quantity is a norm over the state's components: residual estimates whose shape matches the reference only by coincidence are rejected "
+                   "(guard-table rows of C20 for the residual error estimate, each evaluated under its declared corruption)", floor=2)
+    borrow(chk, S, rb2, "C20", lambda r, c: r == "R-C20-1" and c.startswith("residual error estimate") and "single-output" not in c)
